@@ -154,6 +154,10 @@ fn tsel_set<'a>(res: &ResultItem<'a, TextResource>, ranges: &Value) -> Option<Ve
 /// Returns (outcome, result handle, api json)
 pub fn read(ctx: &Ctx, op: &Op) -> (String, i64, Value) {
     let style = ctx.style;
+    if op.ev == "FindData" {
+        let (outcome, api) = crate::query::finddata_event(&ctx.store, &op.a, style);
+        return (outcome, 0, api);
+    }
     if op.ev == "Load" {
         let (outcome, api) = crate::load::load_event(ctx, &op.a);
         return (outcome, 0, api);
@@ -445,4 +449,4 @@ pub fn read(ctx: &Ctx, op: &Op) -> (String, i64, Value) {
 
 pub const READ_EVENTS: &[&str] =
     &["Lookup", "TextSel", "AnnTextOf", "OffsetReport", "Utf8Byte", "ByteToChar", "TextOp", "TestRelation", "RelatedText",
-      "TestRelationRow", "RelatedRow", "Validate", "WebAnno", "Parse", "Query", "ConcRun", "Load"];
+      "TestRelationRow", "RelatedRow", "Validate", "WebAnno", "Parse", "Query", "ConcRun", "Load", "FindData"];
